@@ -58,7 +58,8 @@ def gen_case(seed, tier, prop="C14"):
             for r in ("raise", "raise_sai", "raise_base"):
                 if r in plan:
                     plan = plan[:plan.index(r) + 1]
-            calls.append({"pre": rng.choice([0, 0, 0.125, 0.25]), "abandon": rng.random() < 0.35,
+            # 10.5 virtual seconds: longer than WorkerThread.MAX_IDLE_TIME, so that idle workers are pruned
+            calls.append({"pre": rng.choice([0, 0, 0, 0.125, 0.125, 0.25, 0.25, 10.5]), "abandon": rng.random() < 0.35,
                           "shape": rng.choice(["plain", "plain", "shield_inner", "shield_self"]),
                           "cancel_after": rng.choice([None, None, 0, 0.0625, 0.125, 0.25, 0.5]),
                           "naps": [rng.choice([0.125, 0.25, 0.5]) for _ in range(3)], "plan": plan})
@@ -348,6 +349,8 @@ class ToThreadRun:
         if self.limiter.borrowed_tokens:
             self.v("token_leak", f"{self.limiter.borrowed_tokens} limiter tokens are still borrowed after every call returned")
         self.threads = len({s.get("thread_index") for s in self.calls if s.get("started")})
+        if any(r.done and r.name.startswith("worker") for r in baton.S.order):
+            self.bump("idle_worker_pruned_while_loop_runs")
 
     def execute(self):
         case = self.case
